@@ -128,6 +128,11 @@ func (pc *panicChecker) sites(f *ssa.Function) []panicSite {
 				if need, ok, why := pc.derefSafe(f, x, x.X); need {
 					add("nilderef", x, ok, why)
 				}
+			case *ssa.FieldAddr:
+				// p.f on a pointer that comes from a map/slice element, a call or a merge with nil
+				if need, ok, why := pc.derefSafe(f, x, x.X); need {
+					add("nilderef", x, ok, why)
+				}
 			case *ssa.Call:
 				cc := x.Common()
 				if cc.IsInvoke() {
@@ -420,6 +425,16 @@ func (pc *panicChecker) valueNonNil(f *ssa.Function, v ssa.Value, at ssa.Instruc
 	if depth > 6 {
 		return false, "too deep"
 	}
+	// dominating nil test on the same SSA value
+	for _, ef := range expandFacts(factsAt(at.Block())) {
+		if b, ok := ef.Cond.(*ssa.BinOp); ok && (b.Op == token.EQL || b.Op == token.NEQ) {
+			if (sameAssert(b.X, v) && isNilConst(b.Y)) || (sameAssert(b.Y, v) && isNilConst(b.X)) {
+				if (b.Op == token.NEQ) == ef.Truth {
+					return true, "dominated by a != nil test"
+				}
+			}
+		}
+	}
 	switch x := v.(type) {
 	case *ssa.MakeMap, *ssa.MakeSlice, *ssa.MakeChan, *ssa.Alloc, *ssa.MakeClosure, *ssa.MakeInterface, *ssa.FieldAddr, *ssa.IndexAddr, *ssa.Function:
 		_ = x
@@ -465,6 +480,18 @@ func (pc *panicChecker) valueNonNil(f *ssa.Function, v ssa.Value, at ssa.Instruc
 	if c, idx := callOf(v); c != nil {
 		if pc.callReturnsNonNil(c, idx, depth) {
 			return true, "callee returns non-nil on every path"
+		}
+		// (value, error) pair with the error tested nil on every path to here
+		if e := errorOf(c); e != nil && idx >= 0 && e != v {
+			for _, ef := range expandFacts(factsAt(at.Block())) {
+				if b, ok := ef.Cond.(*ssa.BinOp); ok && (b.Op == token.EQL || b.Op == token.NEQ) {
+					if (b.X == e && isNilConst(b.Y)) || (b.Y == e && isNilConst(b.X)) {
+						if (b.Op == token.EQL) == ef.Truth {
+							return true, "the call's error was tested nil: (value, nil) / (nil, error) exclusivity"
+						}
+					}
+				}
+			}
 		}
 	}
 	return false, "value " + v.Name() + " may be nil"
